@@ -11,6 +11,7 @@ type Plan struct {
 	RelCapInc      int        `json:"relCapInc"`
 	Types          []TypeSpec `json:"types"`
 	ResTypes       int        `json:"resTypes"`
+	ResLazy        int        `json:"resLazy,omitempty"` // which resource types are registered up front: 0 every second, 1 none, 2 every third
 	EntityCap      int        `json:"entityCap"`
 	MaxOpen        int        `json:"maxOpen"`
 	FullEvery      int        `json:"fullEvery"`
@@ -523,9 +524,17 @@ func tuneProfile(p *Plan, r *Rng, thorough bool) {
 	case "C20":
 		w["res"] = 30
 		p.ResTypes = 2 + r.Intn(12)
-		if r.Intn(4) == 0 {
+		switch r.Intn(8) {
+		case 0, 1:
 			p.ResTypes = ecs.MaskTotalBits
+		case 2, 3, 4:
+			// enough types for the registry and the storage to grow while resources are present
+			p.ResTypes = 14 + r.Intn(60)
+			if p.ResTypes > ecs.MaskTotalBits {
+				p.ResTypes = ecs.MaskTotalBits
+			}
 		}
+		p.ResLazy = r.Intn(3)
 		w["reset"] = 3
 		w["dump"] = 2 // LoadEntities into a world that holds resources
 	}
